@@ -736,7 +736,7 @@ def _run_property(pid, tier, seed, logdir):
                 "reply carries a server identifier", "server identifier names", "message handling never panics"),
         "C10": ("every OFFER and ACK", "advertised lease time"),
         "C01": ("the lease store changes only", "pool is asked on behalf"),
-        "C09": ("address named to the pool", "a named address is handed"),
+        "C09": ("address named to the pool", "a named address is handed", "pool is asked on behalf"),
         "C11": ("top-level defaults (the generated base policy) are applied first",),
     }
 
